@@ -56,6 +56,15 @@ Admits(a, v) ==
 \* does a node *without* the label satisfy the requirement?
 AbsentOK(a) == a.op \in {"NotIn", "DoesNotExist"}
 
+\* ---------------------------------------------------------------- normalised (key, value) pairs
+\* Requirements are read over NORMALISED pairs: a deprecated key spelling stands for its stable key (CanonKey below), and
+\* a cloud provider may register, per stable key, a translation of value spellings (v1.NormalizedLabelValues, e.g. a
+\* CSI driver's "" for the provider's "0").  The translation belongs to the *stable* key, whichever spelling of the key
+\* the requirement was written with; node label values are in the provider's vocabulary and are not translated.
+\* `vm` is a function spelling -> spelling (empty = nothing registered for the key).
+NormVal(vm, s)  == IF s \in DOMAIN vm THEN vm[s] ELSE s
+NormAtom(vm, a) == [a EXCEPT !.S = {NormVal(vm, s) : s \in a.S}]
+
 \* ---------------------------------------------------------------- conjunctions (a chain of Adds on one key)
 AdmitsAll(as, v) == \A j \in DOMAIN as : Admits(as[j], v)
 AbsentAll(as)    == \A j \in DOMAIN as : AbsentOK(as[j])
